@@ -126,14 +126,16 @@ func LayerConvertFuncWithCompressionLevel(compressionLevel zstd.EncoderLevel, op
 		defer uncompressedReaderAt.Close()
 		uncompressedSR := io.NewSectionReader(uncompressedReaderAt, 0, uncompressedDesc.Size)
 		metadata := make(map[string]string)
-		opts = append(opts, estargz.WithCompression(&zstdCompression{
+		// Use a per-call copy: this function is called concurrently for the layers of an image and
+		// must not modify (or build with) the options of another call.
+		buildOpts := append(append([]estargz.Option{}, opts...), estargz.WithCompression(&zstdCompression{
 			new(zstdchunked.Decompressor),
 			&zstdchunked.Compressor{
 				CompressionLevel: compressionLevel,
 				Metadata:         metadata,
 			},
 		}))
-		blob, err := estargz.Build(uncompressedSR, append(opts, estargz.WithContext(ctx))...)
+		blob, err := estargz.Build(uncompressedSR, append(buildOpts, estargz.WithContext(ctx))...)
 		if err != nil {
 			return nil, err
 		}
